@@ -32,6 +32,7 @@
                                without the four mnemonics whose (flag-off) run never fetches an
                                opcode-0xD word, `lace check|compile|run` with `-f stack` is the same
                                process as without the option: exit status, stdout, image written.
+  * `flag_position_irrelevant` — `-f v` before the subcommand = `-f v` after it (after the fix).
   * `flag_off_cli_rejects`   — and a source with one of them is refused by all three commands
                                without the option: status 1, nothing written, stderr names the feature.
 -/
@@ -215,8 +216,8 @@ theorem flag_irrelevant_cli (cmd : FlagCmd) (fuel : Nat) (name dest src : List C
     (hrun : ∀ img m, (assemble false [] src).1 = .ok img →
       Run.fromRaw (img.orig.getD 0x3000#16 :: img.words) = .ok m →
       ∀ x ∈ Run.fetchedWords false true fuel m (runWorld name inp), (x.extractLsb' 12 4).toNat ≠ 13) :
-    laceFlag cmd (.given Features.stackWord) fuel name dest src inp =
-      laceFlag cmd .absent fuel name dest src inp := by
+    laceFlag cmd .absent (.given Features.stackWord) fuel name dest src inp =
+      laceFlag cmd .absent .absent fuel name dest src inp := by
   unfold laceFlag
   rw [featuresOf_stack, featuresOf_absent]
   simp only []
@@ -248,7 +249,7 @@ image written, and the text on stderr names the feature. -/
 theorem flag_off_cli_rejects (cmd : FlagCmd) (fuel : Nat) (name dest src : List Char) (inp : List Nat)
     (toks : List Token) (hon : preprocess (some true) src = .ok toks)
     (hst : ∃ t ∈ toks, t.kind.isStack = true) :
-    ∃ out, laceFlag cmd .absent fuel name dest src inp =
+    ∃ out, laceFlag cmd .absent .absent fuel name dest src inp =
       .finished { status := 1, out := out, image := none, named := true } := by
   obtain ⟨sp, h⟩ := flag_off_rejects [] src toks hon hst
   unfold laceFlag
@@ -256,11 +257,22 @@ theorem flag_off_cli_rejects (cmd : FlagCmd) (fuel : Nat) (name dest src : List 
   simp only [h]
   cases cmd <;> exact ⟨_, rfl⟩
 
+open Lace.Cli in
+/-- `-f v` means the same before the subcommand (`lace -f stack run x.asm`) as after it
+(`lace run x.asm -f stack`).  (False for the unchanged code: the top-level option was parsed and
+then dropped whenever a subcommand followed — KNOWN_FINDINGS, fixed.) -/
+theorem flag_position_irrelevant (cmd : FlagCmd) (v : List Char) (fuel : Nat) (name dest src : List Char)
+    (inp : List Nat) :
+    laceFlag cmd (.given v) .absent fuel name dest src inp =
+      laceFlag cmd .absent (.given v) fuel name dest src inp := by
+  unfold laceFlag
+  rw [featuresOf2_comm]
+
 /-! Non-vacuity: the hypotheses of `flag_irrelevant_cli` hold for `ret ; pushy` (which does not
 assemble: the run hypothesis is void) — and token streams without the mnemonics exist. -/
 open Lace.Cli in
-example : laceFlag .check (.given Features.stackWord) 100 "f.asm".toList "o".toList "br pushy".toList [] =
-    laceFlag .check .absent 100 "f.asm".toList "o".toList "br pushy".toList [] := by
+example : laceFlag .check .absent (.given Features.stackWord) 100 "f.asm".toList "o".toList "br pushy".toList [] =
+    laceFlag .check .absent .absent 100 "f.asm".toList "o".toList "br pushy".toList [] := by
   have hd : (assemble false [] "br pushy".toList).1 = .diag .labelNotFound none := by decide
   refine flag_irrelevant_cli _ _ _ _ _ _
     (match preprocess (some true) "br pushy".toList with | .ok t => t | _ => []) rfl (by decide) ?_
